@@ -295,7 +295,8 @@ func c14Save(variant, sizeS, seedS, probe string) []string {
 	// An abandoned update must say so: an error for spoiled or missing sources
 	// and for injected faults, none when the list simply has not changed.
 	lim := vc14.FsizeOf(probe)
-	wantErr := spoil != "" || missing || strings.HasPrefix(probe, "faildir") || (lim >= 0 && int64(len(want)) > lim)
+	wantErr := spoil != "" || missing || strings.HasPrefix(probe, "faildir") || (lim >= 0 && int64(len(want)) > lim) ||
+		strings.HasSuffix(probe, "+leak")
 	if !committed && (err != nil) != wantErr {
 		finalOK = false
 	}
@@ -368,9 +369,11 @@ func (p *c14Parent) gen(r *rand.Rand, emit vutil.Emit) {
 	n := vutil.N(40)
 	// One download just over the cap in every run; thorough: both sides of the
 	// cap, both kinds of source, and a smaller list replacing the large one.
-	p.genCap(r, emit, "http", []int{c14Cap + 1 + r.IntN(1<<20)})
+	if vc14.Injected() == "" {
+		p.genCap(r, emit, "http", []int{c14Cap + 1 + r.IntN(1<<20)})
+	}
 	for b := 0; b < n; b++ {
-		if vutil.Thorough() && b%60 == 30 {
+		if vutil.Thorough() && b%60 == 30 && vc14.Injected() == "" {
 			src := "http"
 			if r.IntN(3) == 0 {
 				src = "file"
@@ -430,6 +433,17 @@ func (p *c14Parent) gen(r *rand.Rand, emit vutil.Emit) {
 				fault = "fsize=" + strconv.Itoa(lim)
 			}
 			probe := vc14.Probe(mode, fault)
+			// With every fsync failing (strace injection) no update can be committed:
+			// CloseReplace returns the error — and, a quirk of the code, nobody calls
+			// Cleanup after that: the temporary file and its descriptor stay.
+			inj := vc14.Injected() == "fsync"
+			leak := func(wouldCommit bool) (commit bool, pr string) {
+				if inj && wouldCommit {
+					return false, probe + "+leak"
+				}
+
+				return wouldCommit, probe
+			}
 			// The save fails before or while writing wantLen bytes.
 			writeFails := func(wantLen int) bool {
 				return fault == "faildir" || (lim >= 0 && wantLen > lim)
@@ -452,16 +466,16 @@ func (p *c14Parent) gen(r *rand.Rand, emit vutil.Emit) {
 			case v < 11:
 				wantLen, empty := body(size, seed)
 				changed := !empty || !st.ckZero
-				commit := changed && !writeFails(wantLen)
-				emit("C14.save", "ok", sz, sd, vutil.B(commit), "0", probe)
+				commit, pr := leak(changed && !writeFails(wantLen))
+				emit("C14.save", "ok", sz, sd, vutil.B(commit), "0", pr)
 				if commit {
 					st.size, st.seed, st.wantLen, st.fileEmpty, st.ckZero = size, seed, wantLen, empty, empty
 				}
 			case v < 14:
 				// The list in the file again: a change only when the checksum was
 				// forgotten.
-				commit := st.ckZero && !writeFails(st.wantLen)
-				emit("C14.save", "same", strconv.Itoa(st.size), strconv.FormatUint(st.seed, 10), vutil.B(commit), "0", probe)
+				commit, pr := leak(st.ckZero && !writeFails(st.wantLen))
+				emit("C14.save", "same", strconv.Itoa(st.size), strconv.FormatUint(st.seed, 10), vutil.B(commit), "0", pr)
 				if commit {
 					st.ckZero = false
 				}
@@ -477,8 +491,8 @@ func (p *c14Parent) gen(r *rand.Rand, emit vutil.Emit) {
 				// set_url to a good list: the old file must stay until the new one
 				// is complete.
 				wantLen, empty := body(size, seed)
-				commit := !empty && !writeFails(wantLen)
-				emit("C14.save", "seturl", sz, sd, vutil.B(commit), "0", probe)
+				commit, pr := leak(!empty && !writeFails(wantLen))
+				emit("C14.save", "seturl", sz, sd, vutil.B(commit), "0", pr)
 				st.ckZero = true
 				if commit {
 					st.size, st.seed, st.wantLen, st.fileEmpty, st.ckZero = size, seed, wantLen, false, false
@@ -519,7 +533,7 @@ func (p *c14Parent) run(f []string) []string {
 		rd := vc14.StartReader(p.dest)
 		resp, events, err := p.child.Do("save", f[1], f[2], f[3], f[6])
 		if err != nil || len(resp) != 5 {
-			rd.Stop("", "")
+			rd.Stop()
 			if err != nil {
 				panic(err)
 			}
